@@ -474,8 +474,10 @@ func runChild(opFile, traceFile, inject string) runResult {
 		cmd = exec.CommandContext(ctx, selfBin, "-child", opFile)
 	} else {
 		args := []string{"-f", "-o", traceFile, "-s", "24", "-e", "trace=?" + strings.Join(traceSet, ",?")}
-		if inject != "" {
-			args = append(args, "-e", "inject="+inject)
+		for _, in := range strings.Split(inject, ";") {
+			if in != "" {
+				args = append(args, "-e", "inject="+in)
+			}
 		}
 		args = append(args, selfBin, "-child", opFile)
 		cmd = exec.CommandContext(ctx, straceBin, args...)
@@ -688,6 +690,11 @@ type scenario struct {
 	WantNewEnt *entityJ // intended new entity (save-entity), nil for delete-entity
 	EntName    string   // name of the entity written / deleted
 	WantVer    string   // transport: expected "version" after a complete run
+
+	// FaultErr: the FIRST write(2) of the operation fails with this errno (ENOSPC: the disk is full until something is
+	// removed); every later call works.  The crash points are those of the operation as it runs under that fault.
+	FaultErr    string
+	faultInject string
 
 	// Links: every key file of the storage directory is a symbolic link to a regular file in another directory (a
 	// deployment that keeps the files on a persistent partition).  What the link becomes is the implementation's
@@ -1485,6 +1492,30 @@ func main() {
 		scs = append(scs, more...)
 		r.Count("scenarios_with_symbolic_links", len(more))
 	}
+	// the same writes when the first write(2) of the operation fails with ENOSPC (a full disk) and everything after works
+	{
+		var more []*scenario
+		picked := map[string]int{}
+		for _, sc := range scs {
+			if sc.Op.TmpDir != "" || sc.Links || sc.Kind == "transport-config" || sc.Kind == "delete" || sc.Kind == "delete-entity" {
+				continue
+			}
+			lim := 2
+			if sc.Kind == "set" {
+				lim = r.Pick(5, 14)
+			}
+			if picked[sc.Kind] >= lim {
+				continue
+			}
+			picked[sc.Kind]++
+			c := *sc
+			c.ID = sc.ID + "+first-write-fails-with-ENOSPC"
+			c.FaultErr = "ENOSPC"
+			more = append(more, &c)
+		}
+		scs = append(scs, more...)
+		r.Count("scenarios_with_a_failing_first_write", len(more))
+	}
 	// the same writes by a process without root on a read-only storage directory whose files it may write
 	if traversable(root) {
 		var more []*scenario
@@ -1629,6 +1660,50 @@ func main() {
 					sc.skipped = fmt.Sprintf("%d state-changing calls on the directory were made by other threads during the operation; the enumeration would be incomplete", n)
 					return
 				}
+				if sc.FaultErr != "" {
+					// second baseline: the same operation with its first write(2) failing
+					ord := 0
+					for _, p := range pts {
+						if p.Name == "write" {
+							ord = p.Ordinal
+							break
+						}
+					}
+					if ord == 0 {
+						sc.skipped = "no write(2) between the markers to fail"
+						return
+					}
+					sc.faultInject = fmt.Sprintf("write:error=%s:when=%d", sc.FaultErr, ord)
+					bdir = filepath.Join(sc.dir, "base-fault")
+					if err := sc.materialise(bdir); err != nil {
+						sc.skipped = "copy: " + err.Error()
+						return
+					}
+					writeOp(bdir, sc.Op, opf)
+					tf = filepath.Join(sc.dir, "base-fault.strace")
+					res := runChild(opf, tf, sc.faultInject)
+					if res.TimedOut || (res.ExitCode != 0 && res.ExitCode != 3) {
+						sc.skipped = fmt.Sprintf("baseline run under the fault failed: %+v", res)
+						return
+					}
+					if tr, err = parseTrace(tf); err != nil {
+						sc.skipped = "baseline trace: " + err.Error()
+						return
+					}
+					pts, seq, tid, begin, end = mutatingBetweenMarkers(tr)
+					if !begin || !end {
+						sc.skipped = fmt.Sprintf("markers not found in the baseline trace under the fault (begin=%v end=%v)", begin, end)
+						return
+					}
+					// (a kill at a write cannot be combined with the failing write in one strace run: those points are left out)
+					var keep []point
+					for _, p := range pts {
+						if p.Name != "write" {
+							keep = append(keep, p)
+						}
+					}
+					pts = keep
+				}
 				sc.points = pts
 				for _, c := range seq {
 					sc.baseSeq = append(sc.baseSeq, shorten(c.Text, 140))
@@ -1641,7 +1716,7 @@ func main() {
 				r.Count("no_crash_runs", 1)
 				r.Eval()
 				// (an operation that may be refused by the environment leaves the old state or the new one, like a killed one)
-				if fs := sc.check(sc.baseNew, sc.Op.Unpriv); len(fs) > 0 {
+				if fs := sc.check(sc.baseNew, sc.Op.Unpriv || sc.FaultErr != ""); len(fs) > 0 {
 					report(sc, nil, fs, sc.baseNew, markedThreadExcerpt(tr, tid, 14), tf)
 				}
 			})
@@ -1657,6 +1732,10 @@ func main() {
 		r.Distinct("scenario_class", sc.label())
 		if sc.skipped != "" {
 			r.Inconclusive("scenario " + sc.ID + ": " + sc.skipped)
+			continue
+		}
+		if len(sc.points) == 0 && sc.FaultErr != "" {
+			r.Count("fault_scenarios_without_a_crash_point_left", 1)
 			continue
 		}
 		if len(sc.points) == 0 && sc.Op.Unpriv {
@@ -1694,7 +1773,7 @@ func main() {
 					opf := pdir + "-op.json"
 					writeOp(pdir, sc.Op, opf)
 					tf := pdir + ".strace"
-					res := runChild(opf, tf, fmt.Sprintf("%s:signal=SIGKILL:when=%d", pt.Name, pt.Ordinal))
+					res := runChild(opf, tf, sc.faultInject+";"+fmt.Sprintf("%s:signal=SIGKILL:when=%d", pt.Name, pt.Ordinal))
 					if attempt == 0 {
 						r.Count("crash_points_injected", 1)
 					}
